@@ -183,6 +183,33 @@ func (e *Engine) intrinsic(st *State, fn *ssa.Function, args []Value, ci ssa.Val
 			}
 			e.finish(st, ci, Const(64, uint64(k)), fd)
 			return true
+		case "vChanReady":
+			ready := false
+			if ifc, ok := args[0].(*Struct).F[0].(*Iface); ok && ifc != nil {
+				if ch, ok := ifc.V.(*ChanRef); ok && ch.Obj != 0 {
+					cv := st.heap[ch.Obj].(*ChanVal)
+					ready = len(cv.Buf) > 0 || cv.Closed
+				}
+			}
+			e.finish(st, ci, Bool(ready), fd)
+			return true
+		case "vChanRecv":
+			ifc := args[0].(*Struct).F[0].(*Iface)
+			ch := ifc.V.(*ChanRef)
+			cv := st.heap[ch.Obj].(*ChanVal)
+			et := ifc.T.Underlying().(*types.Chan).Elem()
+			var v Value
+			okv := Bool(false)
+			if len(cv.Buf) > 0 {
+				v = cv.Buf[0]
+				st.heap[ch.Obj] = &ChanVal{Buf: append([]Value(nil), cv.Buf[1:]...), Cap: cv.Cap, Closed: cv.Closed}
+				okv = Bool(true)
+			} else {
+				v = zero(et)
+			}
+			rv := &Struct{F: []Value{&Iface{T: et, V: v}, (*Ptr)(nil), Const(64, 1)}}
+			e.finish(st, ci, &Tuple{V: []Value{rv, okv}}, fd)
+			return true
 		case "vYield":
 			if e.yield(st) {
 				e.finish(st, ci, nil, fd)
@@ -303,6 +330,21 @@ func (e *Engine) intrinsic(st *State, fn *ssa.Function, args []Value, ci ssa.Val
 		st.store(dst, e.deepCopy(st, src))
 		e.finish(st, ci, (*Iface)(nil), fd)
 		return true
+	}
+	if name == "reflect.Select" && e.harnessPkg != nil {
+		if f := e.harnessPkg.Func("vReflectSelect"); f != nil {
+			e.pushCall(st, f, args, nil, ci)
+			e.top(st).fromDefer = fd
+			return true
+		}
+	}
+	// a harness may model what Stopper.Stop waits for (its workers returning)
+	if name == "(*github.com/lni/goutils/syncutil.Stopper).Stop" && e.harnessPkg != nil {
+		if f := e.harnessPkg.Func("vStopperStop"); f != nil {
+			e.pushCall(st, f, args, nil, ci)
+			e.top(st).fromDefer = fd
+			return true
+		}
 	}
 	if name == "sort.Slice" && e.harnessPkg != nil {
 		if f := e.harnessPkg.Func("vSortSlice"); f != nil {
@@ -728,6 +770,27 @@ func (e *Engine) intrinsic(st *State, fn *ssa.Function, args []Value, ci ssa.Val
 		return true
 	case "math.Ceil":
 		e.finish(st, ci, math.Ceil(args[0].(float64)), fd)
+		return true
+	case "reflect.ValueOf":
+		// only as a carrier (reflect.Select cases, Value.Interface)
+		e.finish(st, ci, &Struct{F: []Value{args[0], (*Ptr)(nil), Const(64, 1)}}, fd)
+		return true
+	case "(reflect.Value).Interface":
+		e.finish(st, ci, args[0].(*Struct).F[0], fd)
+		return true
+	case "time.NewTicker", "time.NewTimer":
+		// a ticker / timer that does not fire within the modelled schedule
+		pt := fn.Signature.Results().At(0).Type().(*types.Pointer)
+		tv := zero(pt.Elem()).(*Struct)
+		nf := append([]Value(nil), tv.F...)
+		nf[0] = &ChanRef{Obj: st.alloc(&ChanVal{Cap: 1})}
+		e.finish(st, ci, &Ptr{Obj: st.alloc(&Struct{F: nf})}, fd)
+		return true
+	case "(*time.Ticker).Stop":
+		e.finish(st, ci, nil, fd)
+		return true
+	case "(*time.Timer).Stop":
+		e.finish(st, ci, Bool(true), fd)
 		return true
 	case "time.Now":
 		e.finish(st, ci, zero(fn.Signature.Results().At(0).Type()), fd)
